@@ -61,6 +61,10 @@ SEEDS = {
  "C19-m4": ("MTVRPEnv.load_data(scale=True) normalises by the first instance's capacity", "scale=True and mixed capacity_original in one file"),
  "C18-m3": ("Cluster.sample discards the result of the final clamp (clamp instead of clamp_)", "clustered / mixed location distribution and a ~3-sigma draw near a border"),
  "C18-m4": ("CVRPGenerator.__init__ lets the capacity table override an explicit capacity=", "explicit capacity= together with a tabulated num_loc"),
+ "C20-m3": ("WarmupBaseline.eval scales the exponential baseline's state tensor in place", "n_epochs >= 2, 0 < alpha < 1 and at least two eval calls"),
+ "C20-m4": ("RewardScaler.__call__ skips the update for single-value batches", "reward_scale norm/scale and a later batch with exactly one value"),
+ "C14-m3": ("PointerNetworkPolicy.forward reshapes locs instead of transposing them", "batch size > 1"),
+ "C14-m4": ("MTVRPEnv.get_action_mask uses row 0's open-route flag in the distance-limit test", "batch mixing open-route and closed-route instances with a distance limit"),
 }
 for sid in sorted(os.listdir(os.path.join(ROOT, "seeded"))):
     d = os.path.join(ROOT, "seeded", sid)
